@@ -64,6 +64,13 @@ def instantiate_type(
                 typename.instantiations[idx].name =\
                     instantiations[template_idx]
             else:
+                # scoped use inside the arguments, e.g. vector<T::Value>
+                instantiation.namespaces = [
+                    instantiations[template_typenames.index(
+                        namespace)].to_cpp()
+                    if namespace in template_typenames else namespace
+                    for namespace in instantiation.namespaces
+                ]
                 instantiate_template_args(instantiation)
 
     instantiate_template_args(ctype.typename)
